@@ -335,16 +335,30 @@ def run(ctx, eng):
     fi = eng.m.func('stream.H2Stream.receive_push_promise_in_band')
     bad = []
     n = 0
-    for p in cm.normal_paths(eng.I.run(fi)):
+    paths_ev = eng.I.run(fi)
+    PRH = 'stream.H2Stream._process_received_headers'
+    through = not any(e.kind == 'write' and e.attr == 'headers'
+                      for p in paths_ev for e in p.events) and \
+        eng.m.func(PRH, required=False) is not None
+    if through:
+        # the helper is handed the event and stores the headers itself: read
+        # through the call (what the helper does to them is C15's PIPE.inbound)
+        paths_ev = eng.interp({PRH}, depth=1).run(fi)
+    for p in cm.normal_paths(paths_ev):
         n += 1
         w = {e.attr: e for e in p.events if e.kind == 'write'}
         ps = w.get('pushed_stream_id')
         if ps is None or cm.attr_chain(ps.value) != 'promised_stream_id':
             bad.append('pushed_stream_id is not the promised id')
         hd = w.get('headers')
-        if hd is None or not (hd.value[0] == 'call' and
-                              '_process_received_headers' in hd.value[1] and
-                              cm.attr_chain(hd.value[2][1]) == 'headers'):
+        if through:
+            if hd is None or not (hd.value[0] == 'call' and
+                                  hd.value[1] == 'list' and
+                                  "('p', 'headers')" in repr(hd.value)):
+                bad.append('headers are not the validated request headers')
+        elif hd is None or not (hd.value[0] == 'call' and
+                                '_process_received_headers' in hd.value[1] and
+                                cm.attr_chain(hd.value[2][1]) == 'headers'):
             bad.append('headers are not the validated request headers')
         for x in (ps, hd):
             if x is not None and not (x.base[0] == 'sub' and
